@@ -285,3 +285,21 @@ package xslices
 //@   panics when idx < 0 || idx > len(s)
 //@   ensures len(result) == len(s) + len(values)
 //@   ensures forall t int {result[t]} :: (0 <= t && t < idx ==> result[t] == old(s[t])) && (idx <= t && t < idx + len(values) ==> result[t] == values[t - idx]) && (idx + len(values) <= t && t < len(result) ==> result[t] == old(s[t - len(values)]))
+
+// ---- Runs: consecutive, non-empty, maximal runs of `same` neighbours, sharing s's array ----
+//@ pred runOf(s, r) = arr(r) == arr(s) && len(r) >= 1 && off(s) <= off(r) && off(r) + len(r) <= off(s) + len(s)
+
+//@ func Runs
+//@   props C07 C19
+//@   requires same != nil
+//@   loop 0: invariant 1 <= i && 0 <= start && (len(s) > 0 ==> i <= len(s) && start < end && end == i) && (len(s) == 0 ==> end == 0 && start == 0 && len(runs) == 0) && (len(runs) == 0 ==> start == 0) && (len(runs) > 0 ==> fresh(runs)) && (len(runs) == 0 ==> cap(runs) == 0)
+//@   loop 0: invariant forall t int {row(s)[t]} :: off(s) + start <= t && t < off(s) + end - 1 ==> same(row(s)[t], row(s)[t+1])
+//@   loop 0: invariant forall j int {runs[j]} :: 0 <= j && j < len(runs) ==> runOf(s, runs[j])
+//@   loop 0: invariant len(runs) > 0 ==> off(runs[0]) == off(s) && off(runs[len(runs)-1]) + len(runs[len(runs)-1]) == off(s) + start && !same(s[start-1], s[start])
+//@   loop 0: invariant forall j int {runs[j]} :: 0 <= j && j < len(runs) - 1 ==> off(runs[j+1]) == off(runs[j]) + len(runs[j]) && !same(row(s)[off(runs[j+1]) - 1], row(s)[off(runs[j+1])])
+//@   loop 0: invariant forall j int, t int {runs[j], row(s)[t]} :: 0 <= j && j < len(runs) && off(runs[j]) <= t && t < off(runs[j]) + len(runs[j]) - 1 ==> same(row(s)[t], row(s)[t+1])
+//@   ensures len(s) == 0 ==> len(result) == 0
+//@   ensures len(s) > 0 ==> len(result) >= 1 && off(result[0]) == off(s) && off(result[len(result)-1]) + len(result[len(result)-1]) == off(s) + len(s)
+//@   ensures forall j int {result[j]} :: 0 <= j && j < len(result) ==> runOf(s, result[j])
+//@   ensures forall j int {result[j]} :: 0 <= j && j < len(result) - 1 ==> off(result[j+1]) == off(result[j]) + len(result[j]) && !same(row(s)[off(result[j+1]) - 1], row(s)[off(result[j+1])])
+//@   ensures forall j int, t int {result[j], row(s)[t]} :: 0 <= j && j < len(result) && off(result[j]) <= t && t < off(result[j]) + len(result[j]) - 1 ==> same(row(s)[t], row(s)[t+1])
